@@ -184,6 +184,9 @@ func checkLabels(t *pokertable.Table) (string, string, map[string]bool) {
 	return "", "", labels
 }
 
+// c06Tune lets the pinned search steer the generator towards the recorded finding.
+var c06Tune func(o *HistOpts)
+
 func c06Body(c *run.Ctx) {
 	nontrivial := false
 	var hooks sim.Hooks
@@ -293,8 +296,26 @@ func c06Body(c *run.Ctx) {
 		}
 		s.Label("next_bb_checked")
 	}
+	if c06Tune != nil {
+		c06Tune(&o)
+	}
 	s := RunHistory(c, o, hooks, nil)
 	c.St.Case(s.Labels(), nontrivial, traceOf(s), sampleOf(s))
+}
+
+var c06pStats = ev.New("C06", "c06p")
+
+// TestC06Pinned keeps the recorded finding (labels vs. degenerate button seats) demonstrated.
+func TestC06Pinned(t *testing.T) {
+	c06Tune = func(o *HistOpts) {
+		o.Gen.MinSeats, o.Gen.MaxSeats, o.Gen.MaxPlayers = 4, 6, 4
+		o.Gen.ShortStacks, o.Gen.SitOutPct = 10, 0
+		o.MinHands, o.MaxHands = 3, 6
+		o.BetweenPct, o.BetweenOps = 95, 4
+		o.Mem = sim.MemOpts{NewPlayer: 5, Leave: 6, KeepSitting: 0, MaxNewID: 8}
+	}
+	defer func() { c06Tune = nil }()
+	run.Pinned(t, "C06", "c06p", c06pStats, "C06.labels-vs-buttons.sb-not-between-dealer-and-bb", 3000, c06Body)
 }
 
 func TestC06(t *testing.T) {
